@@ -44,11 +44,12 @@ type Exp struct {
 }
 
 type TR struct {
-	Step int    `json:"step"`
-	Op   string `json:"op"`
-	SQL  string `json:"sql"`
-	Ret  string `json:"ret"`
-	Exp  Exp    `json:"exp"`
+	Step int      `json:"step"`
+	Op   string   `json:"op"`
+	SQL  string   `json:"sql"`
+	Ret  string   `json:"ret"`
+	Tags []string `json:"tags"` // features of the statement named by the specification (labels a disagreement)
+	Exp  Exp      `json:"exp"`
 }
 
 // canonical text of one value (representation only)
@@ -245,7 +246,9 @@ type obsDiff struct {
 func observe(s *eng.Session, e *Exp, comparisons *int) []obsDiff {
 	var ds []obsDiff
 	add := func(what string, exp, got interface{}) { ds = append(ds, obsDiff{what, exp, got}) }
-	qfail := func(what string, err error) { add(what+":query-failed:"+msgClass(err.Error()), "the query succeeds", err.Error()) }
+	qfail := func(what string, err error) {
+		add(what+":query-failed:"+msgClass(err.Error()), "the query succeeds", err.Error())
+	}
 
 	// tables
 	*comparisons++
@@ -380,6 +383,9 @@ func main() {
 		opLabel := tr.Op
 		if tr.Ret == "fail" {
 			opLabel += "(fail)" // the statement was expected to fail without effect
+		}
+		if len(tr.Tags) > 0 {
+			opLabel += "{" + strings.Join(tr.Tags, ",") + "}"
 		}
 		mismatch := func(what string, exp, g interface{}) {
 			rep.Mismatches = append(rep.Mismatches, vio.Mismatch{Case: i, Signature: "C21|" + opLabel + "|" + what, Expected: exp, Got: g,
